@@ -154,6 +154,11 @@ partial def elabStmts (ps : PS) (inst : Nat) (stmts : List Stmt) (env : List (St
     | "gate" | "ngate" =>   -- ngate: the same node built as a native node (generic readiness gate of node.cpp)
       let f := st.args.getD 2 "VV"
       simple .gate [a 0 (f.front == 'U'), a 1 ((f.drop 1).toString.front == 'U')]
+    | "gate3" =>   -- three inputs; flags = 3 validity chars + 3 activity chars (P: the SIGNATURE declares the input passive)
+      let f := (st.args.getD 3 "VVVAAA").toList
+      let ch (i : Nat) : Char := f.getD i 'V'
+      let sigp (i : Nat) (r : Option InRef) : Option InRef := r.map fun x => { x with passive := x.passive || ch (3 + i) == 'P' }
+      simple .gate [sigp 0 (a 0 (ch 0 == 'U')), sigp 1 (a 1 (ch 1 == 'U')), sigp 2 (a 2 (ch 2 == 'U'))]
     | "nscript" =>   -- native script node: two inputs, both REQUIRED valid (the second usually wired passive)
       simple (.script (num 0)) [a 1, a 2]
     | "script" => if st.args.length ≥ 2 then simple (.script (num 0)) [a 1 true] else simple (.script (num 0)) []
@@ -240,6 +245,7 @@ partial def elabStmts (ps : PS) (inst : Nat) (stmts : List Stmt) (env : List (St
          let body := sd.body.map fun s =>
            let args' := match s.kind with
              | "add" | "gate" | "ngate" => (s.args.take 2).map (shiftArg off) ++ s.args.drop 2
+             | "gate3" => (s.args.take 3).map (shiftArg off) ++ s.args.drop 3
              | "nscript" => s.args.take 1 ++ (s.args.drop 1).map (shiftArg off)
              | "acc" | "pass" | "sink" | "probe" => s.args.map (shiftArg off)
              | "thrower" => (s.args.take 1) ++ (s.args.drop 1).map (shiftArg off)
